@@ -267,7 +267,7 @@ def main(tier):
     d = 1 if tier == "quick" else 2
     configs = deviations(DIMS, d)
     tasks = []
-    K = producers.SECTION_KINDS
+    K = producers.SECTION_KINDS + ["commit"]     # "commit": the next commit directly after a file (no blank line)
     for label, ov, k in configs:
         for coloured in (False, True):
             if tier == "quick":
